@@ -102,7 +102,10 @@ class _Guard:
                 m = re.search(r"recursion depth (\d+)", str(e))
                 if m:     # only ever lower it: a nested call must not win new depth by ticking again
                     self.limit = min(self.limit, int(m.group(1)) + 10)
-                    sys.setrecursionlimit(max(self.limit, int(m.group(1)) + 3))
+                    try:
+                        sys.setrecursionlimit(self.limit)
+                    except RecursionError:
+                        pass
 
     def reset(self):
         self.calls = 0
